@@ -8,7 +8,7 @@ import lib, suite_traces, composition
 PROPERTIES = ["C11", "C12"]
 
 C11_FIELDS = {'STB', 'queue', 'out', 'SRE', 'ESE', 'OPERE', 'QUESE', 'OPERC', 'QUESC'}
-C12_FIELDS = {'ESR', 'OPER', 'QUES', 'srq-missing', 'srq-without-mss', 'srq-while-mss-clear'}
+C12_FIELDS = {'ESR', 'OPER', 'QUES', 'srq-missing', 'srq-without-mss', 'srq-while-mss-clear', 'srq-not-current-status-byte'}
 
 def kind_of(rec, diff):
     op = rec['op']
@@ -117,6 +117,15 @@ def run(pid, tier):
         rep.cov['driver_runs'].append(dict(alphabet=a, cap=cap, impl_concrete_states=info['concrete_states'], impl_transitions=info['transitions'],
                                            impl_abstract_states=len(proj), spec_states=r.distinct, complete=info['complete']))
         m = validate(rep, pid, w + '/x.ndjson', 'explore-' + a)
+        if a == 'A':
+            # the same exploration without an error callback installed (it is optional)
+            d2 = lib.run_driver(exe, ['explore', w + '/ops.txt', cap, 400000, w + '/y.raw'], env={'DRV_NO_ERROR_CALLBACK': '1'})
+            if d2['rc'] != 0:
+                rep.violation('driver-failure', dict(alphabet=a, variant='no error callback', rc=d2['rc'], stderr=d2['stderr'].decode(errors='replace')[-2000:]))
+            else:
+                subprocess.run('LC_ALL=C sort -u %s/y.raw > %s/y.ndjson; rm %s/y.raw' % (w, w, w), shell=True, check=True)
+                validate(rep, pid, w + '/y.ndjson', 'explore-A-no-error-callback')
+                os.unlink(w + '/y.ndjson')
         if not m and info['complete'] and len(proj) > r.distinct and not rep.viol and not rep.known_hits:
             rep.broken.append('alphabet %s: implementation reaches %d abstract states, specification %d' % (a, len(proj), r.distinct))
         os.unlink(w + '/x.ndjson')
